@@ -15,7 +15,7 @@
     attrs_has_iff_get attrs_slice_spec attrs_sub_nodup attrs_or_sub_nodup attrs_totuple_append
     qname_pickle_roundtrip qname_parse ns_getitem_in
     stripentities_keepxml_escape striptags_no_tag attrs_get_or escape2_append unescape_no_entity
-    mod2_percent_s striptags_keeps_plain_text striptags_removes_simple_tag
+    mod2_percent_s striptags_keeps_plain_text striptags_removes_simple_tag mod2_percent_key
 -/
 import Genshi.Lemmas.Escape
 import Genshi.Lemmas.MarkupOps
@@ -641,6 +641,26 @@ theorem striptags_removes_simple_tag (t rest : List Char) (h1 : '>' ∉ t) (h2 :
     striptags ('<' :: t ++ '>' :: rest) = striptags rest :=
   striptags_simple_tag t rest h1 h2
 
+/-- On the concrete format string `l0 %(k1)s l1 … %(kn)s ln` (no `%` in the literals, no
+    parenthesis in the keys), in both implementations: `Markup(fmt) % mapping` is the Markup
+    `l0 v1' l1 … vn' ln` where `vi'` is the value of `ki` escaped once iff it was not safe
+    (every key present, every value a string operand). -/
+theorem mod2_percent_key (i : Impl) (lits ks : List (List Char)) (kvs : List (List Char × Arg))
+    (hl : ∀ l ∈ lits, '%' ∉ l) (hk : ∀ k ∈ ks, '(' ∉ k ∧ ')' ∉ k) (hlen : lits.length = ks.length + 1)
+    (hkv : ∀ p ∈ kvs, p.2.stringy = true)
+    (hin : ∀ k ∈ ks, (lookupKey k (kvs.map fun p => (p.1, once2 true p.2))).isSome) :
+    MarkupOps.mod i (escOf i) (fmtOfK lits ks) (.map kvs) =
+      .ok (.markup, interleave lits
+        (ks.map fun k => (lookupKey k (kvs.map fun p => (p.1, once2 true p.2))).getD [])) := by
+  unfold MarkupOps.mod
+  rw [parseFmt_fmtOfK lits ks _ [] hl hk hlen (Nat.lt_succ_self _)]
+  dsimp only
+  rw [mapM_escapeKV i kvs hkv]
+  simp only [liftErr, List.reverse_nil]
+  have := fmtMap_piecesOfK (kvs.map fun p => (p.1, once2 true p.2)) lits [] ks hlen hin
+  simp only [List.nil_append] at this
+  simp [this, bind, Except.bind, pure, Except.pure]
+
 end Wave4
 
 /-! ### non-vacuity -/
@@ -688,6 +708,9 @@ example : Attrs.get (Attrs.or [(['h'], ['#']), (['t'], ['x'])] [(['h'], some ['1
 example : striptags ['<', '<', 'a', '>', 'b', '<'] = ['b', '<'] := by decide
 example : MarkupOps.mod .c (escOf .c) (fmtOf [['<', 'b', '>'], ['|'], []]) (.tup [.str ['<'], .msub ['<']]) =
     .ok (.markup, ['<', 'b', '>', '&', 'l', 't', ';', '|', '<']) := by decide +kernel
+example : MarkupOps.mod .py (escOf .py) (fmtOfK [['a'], ['|'], []] [['k'], ['j']])
+    (.map [(['k'], .str ['<']), (['j'], .markup ['<'])]) =
+    .ok (.markup, ['a', '&', 'l', 't', ';', '|', '<']) := by decide +kernel
 end Wave4Examples
 
 end Genshi.Props.C18
